@@ -70,6 +70,16 @@ func (vc *VC) evalMulti(st *State, e ast.Expr) []Term {
 			{
 				ch := vc.evalExpr(st, x.X)
 				ci := vc.chanInfo(ch.T)
+				// other goroutines (not modelled) may have sent in the meantime: the history seen by this receive is
+				// the known history followed by an arbitrary suffix
+				{
+					old := vc.chanBuf(st, ci, ch.S)
+					ext := vc.fresh("chanext", old.T)
+					k := "(forall ((i!e Int)) (! (=> (and (<= 0 i!e) (< i!e " + vc.sliceLen(old) + ")) (= (select " + vc.sliceArr(ext) + " i!e) (select " + vc.sliceArr(old) + " i!e))) :pattern ((select " + vc.sliceArr(ext) + " i!e))))"
+					st.assume(and("(>= "+vc.sliceLen(ext)+" "+vc.sliceLen(old)+")", k, vc.u.WF(ext.S, old.T, st.alloc)))
+					h := vc.heapGet(st, ci.bn, ci.bsort, old.T)
+					st.heap[ci.bn] = Term{S: store(h.S, ch.S, ext.S), Sort: ci.bsort}
+				}
 				buf := vc.chanBuf(st, ci, ch.S)
 				head := vc.chanHead(st, ch.S)
 				ln := vc.sliceLen(buf)
